@@ -262,6 +262,20 @@ def instances(tier, rnd):
             if any(-1 in row for row in problem) and rnd.random() < 0.5:
                 inst["unknown_low"] = rnd.choice([1, 2, 3])
             yield inst
+        # satisfiable boards that MIX numbered islands with `?` islands (derived from a solution grid with at least
+        # two islands; a non-empty proper subset of the clues becomes `?`)
+        for i in range(3 if quick else 30):
+            for _ in range(30):
+                problem = _derived(h, w, rnd)
+                clue_cells = [(y, x) for y in range(h) for x in range(w) if problem[y][x] != 0]
+                if len(clue_cells) >= 2:
+                    break
+            else:
+                continue
+            k = rnd.randrange(1, len(clue_cells))
+            for (y, x) in rnd.sample(clue_cells, k):
+                problem[y][x] = -1
+            yield dict(height=h, width=w, problem=problem)
 
 
 # The repository's only recorded nurikabe problem (nurikabe.main(), also tests/test_serializer.py) is a 10x10
